@@ -288,3 +288,23 @@ fn field_index_iterator__each_level_n2() {
 fn field_index_iterator__each_level_n0() {
     level_each::<0>()
 }
+
+// ---------------------------------------------------------------------------
+// PROBE: the same traversals over a value that lives entirely in fixed-size locals.
+#[kani::proof]
+#[kani::stub(std::mem::drop, crate::lhs_types::verif_kani::common::mem_drop__releases_nothing_observable)]
+#[kani::unwind(3)]
+fn probe_map_each_flat_stack_n2() {
+    let xs: [i64; 2] = kani::any();
+    let vals = [LhsValue::Int(xs[0]), LhsValue::Int(xs[1])];
+    let val = LhsValue::Array(array_borrowed(Type::Int, &vals[..]));
+    let idx = [FieldIndex::MapEach];
+    let mut it = MapEachIterator::from_indexes(&idx);
+    it.reset(val);
+    expect_int(&mut it, xs[0], "[*] applies to every element in array order");
+    expect_int(&mut it, xs[1], "[*] applies to every element in array order");
+    expect_end(&mut it, "[*] yields nothing beyond the elements");
+    kani::cover!(true);
+    std::mem::forget(it);
+    std::mem::forget(vals);
+}
